@@ -507,7 +507,7 @@ def main(tier):
     rep = Report("C12", tier, "model_checking")
     quick = tier == "quick"
     variant = "ossl-asan" if quick else "ossl-plain"
-    deadline = time.time() + (170 if quick else 1700)
+    deadline = time.time() + (600 if quick else 1700)
     depth = 4 if quick else 6
     ex = Explorer(C12(max_calls=3 if quick else 4), variant=variant, deadline=deadline)
     try:
